@@ -611,5 +611,7 @@ mod operator;
 mod token;
 mod tree;
 mod value;
+#[cfg(feature = "verif-hooks")]
+pub mod verif;
 
 // Exports
